@@ -777,7 +777,7 @@ func (w *world) addEvents() {
 	for _, a := range w.actors {
 		a := a
 		x.AddEvent(&mc.Event{
-			Name:    "cancel:" + a.name,
+			Name: "cancel:" + a.name,
 			// Voluntary cancellations belong to the run proper (like the
 			// ticks): once the clock has reached MaxTicks only teardown
 			// cancels, so that a call that is stuck for good is judged by
